@@ -9,6 +9,7 @@
 //!   N r | D r                   r = Type::new() | Type::default()
 //!   Q r p                       r = Quantile::new(p)   (any estimator: new with param p)
 //!   AT r x...                   like A, through the Estimate trait (UFCS) rather than method syntax
+//!   KF a b                      a.clone_from(&b)  (K a b: a = b.clone())
 //!   V r v                       r = Type::from_value(v)            (Min/Max)
 //!   A r x...                    r.add(x) for each x (pairs for 2-ary estimators)
 //!   AR r count x...             `count` adds, cycling through x...
@@ -251,6 +252,21 @@ fn run_case<T: Est>(params: &[&str], ops: &[Vec<&str>], out: &mut String) {
                     None => writeln!(out, "e {} empty-register", idx).unwrap(),
                 }
             }
+            "KF" => {
+                // Clone::clone_from into an existing value (plain clone when the target register is still unset)
+                let (a, b) = (reg(op[1]), reg(op[2]));
+                match regs[b].clone() {
+                    Some(src) => match regs[a].as_mut() {
+                        Some(dst) => {
+                            if let Err(m) = guarded(|| dst.clone_from(&src)) {
+                                writeln!(out, "p {} {}", idx, m).unwrap();
+                            }
+                        }
+                        None => regs[a] = Some(src),
+                    },
+                    None => writeln!(out, "e {} empty-register", idx).unwrap(),
+                }
+            }
             "S" | "SO" => {
                 let r = need!(reg(op[1]));
                 let res: Result<Option<Result<T, String>>, String> = guarded(|| match op[2] {
@@ -362,9 +378,9 @@ fn run_hist<H: HistT>(ops: &[Vec<&str>], out: &mut String) {
             };
         }
         match code {
-            "HR" => {
+            "HR" | "HRF" => {
                 let vals = pfs(&op[2..]);
-                match guarded(|| H::h_from_ranges(vals)) {
+                match guarded(|| if code == "HR" { H::h_from_ranges(vals) } else { H::h_from_ranges_filtered(vals) }) {
                     Ok(Ok(h)) => {
                         regs[reg(op[1])] = Some(h);
                         writeln!(out, "r {} ok", idx).unwrap();
@@ -451,6 +467,21 @@ fn run_hist<H: HistT>(ops: &[Vec<&str>], out: &mut String) {
                     None => writeln!(out, "e {} empty-register", idx).unwrap(),
                 }
             }
+            "KF" => {
+                // Clone::clone_from into an existing value (plain clone when the target register is still unset)
+                let (a, b) = (reg(op[1]), reg(op[2]));
+                match regs[b].clone() {
+                    Some(src) => match regs[a].as_mut() {
+                        Some(dst) => {
+                            if let Err(m) = guarded(|| dst.clone_from(&src)) {
+                                writeln!(out, "p {} {}", idx, m).unwrap();
+                            }
+                        }
+                        None => regs[a] = Some(src),
+                    },
+                    None => writeln!(out, "e {} empty-register", idx).unwrap(),
+                }
+            }
             "S" | "SO" => {
                 let r = need!(reg(op[1]));
                 let res: Result<Option<Result<H, String>>, String> = guarded(|| match op[2] {
@@ -504,7 +535,9 @@ fn dispatch(ty: &str, params: &[&str], ops: &[Vec<&str>], out: &mut String) -> b
         "Mean" => e!(average::Mean),
         "Variance" => e!(average::Variance),
         "MeanWithError" => e!(average::MeanWithError),
+        #[cfg(any(feature = "std", feature = "libm"))]
         "Skewness" => e!(average::Skewness),
+        #[cfg(any(feature = "std", feature = "libm"))]
         "Kurtosis" => e!(average::Kurtosis),
         "Moments4" => e!(average::Moments4),
         "M4" => e!(M4),
@@ -514,23 +547,30 @@ fn dispatch(ty: &str, params: &[&str], ops: &[Vec<&str>], out: &mut String) -> b
         "M8" => e!(M8),
         "M9" => e!(M9),
         "M10" => e!(M10),
+        "M12" => e!(M12),
+        "M17" => e!(M17),
+        "M20" => e!(M20),
         "Min" => e!(average::Min),
         "Max" => e!(average::Max),
+        #[cfg(any(feature = "std", feature = "libm"))]
         "Quantile" => e!(average::Quantile),
         "WeightedMean" => e!(average::WeightedMean),
         "WeightedMeanWithError" => e!(average::WeightedMeanWithError),
         "Covariance" => e!(average::Covariance),
         "CatMinMax" => e!(est::WCatMinMax),
+        #[cfg(any(feature = "std", feature = "libm"))]
         "CatVarQ" => e!(est::WCatVarQ),
+        #[cfg(any(feature = "std", feature = "libm"))]
         "Cat5" => e!(est::WCat5),
+        #[cfg(any(feature = "std", feature = "libm"))]
         "CatSk3" => e!(est::WCatSk3),
         #[cfg(feature = "rayon")]
         "ProbeMean" => e!(probe::ProbeMean),
         #[cfg(feature = "rayon")]
         "ProbeVariance" => e!(probe::ProbeVariance),
-        #[cfg(feature = "rayon")]
+        #[cfg(all(feature = "rayon", any(feature = "std", feature = "libm")))]
         "ProbeSkewness" => e!(probe::ProbeSkewness),
-        #[cfg(feature = "rayon")]
+        #[cfg(all(feature = "rayon", any(feature = "std", feature = "libm")))]
         "ProbeKurtosis" => e!(probe::ProbeKurtosis),
         #[cfg(feature = "rayon")]
         "ProbeMin" => e!(probe::ProbeMin),
